@@ -64,11 +64,16 @@ def make_funcs(kind, case):
             specs.append(("covariance", (fa, w, ign, float("nan")), [fa, w]))
             specs.append(("corrcoef", (fa, None, ign, float("nan")), [fa]))
         specs.append(("quantile", (fa, 0.5, w, ign, float("nan")), [fa, w]))
+        if case["K"] is None:
+            # min / max share one fill routine; both policies, whatever the case's own policy is
+            specs.append(("max:ignore", (fa, True, float("nan")), [fa]))
+            specs.append(("min:propagate", (fa, False, float("nan")), [fa]))
+            specs.append(("min:ignore", (fa, True, float("nan")), [fa]))
     out = []
     for name, args, inputs in specs:
         before = snap(inputs)
         try:
-            f = getattr(mod, pre + name)(*args)
+            f = getattr(mod, pre + name.split(":")[0])(*args)
         except Exception as e:
             out.append((name, None, inputs, before, e))
             continue
@@ -125,6 +130,11 @@ def check(ctx, case):
         good = [(n, f) for n, f, _, _, e in made if e is None]
         if len(good) >= 2:
             trio = ctx.rng.sample(good, min(3, len(good)))
+            # min / max first, then aggregates that read the same coordinates afterwards: they share what the driver hands out
+            mm = [g for g in good if g[0].split(":")[0] in ("max", "min") and g[0].endswith("ignore")]
+            if mm and ctx.rng.random() < 0.6:
+                rest = [g for g in good if g[0].split(":")[0] not in ("max", "min")]
+                trio = [mm[0]] + ctx.rng.sample(rest, min(2, len(rest)))
             try:
                 alone = {n: mk().calculate([f])[0] for n, f in trio}
             except Exception:
